@@ -57,13 +57,13 @@ def block_hash(c, pos, data):
     return ref.blockhash(ref.KIND[kind], seed, data)[:c.hash_size]
 
 
-def pick_version(c, f, cands):
-    """choose the candidate whose blocks match every recorded BLK/REP hash"""
+def pick_version(c, f, cands, states=(C.BLK,)):
+    """choose the candidate whose blocks match every recorded hash of a block in `states`"""
     bs = c.block_size
     for data in cands:
         ok = True
         for i, (st, pos, h) in enumerate(f.blocks):
-            if st in (C.BLK, C.REP):
+            if st in states:
                 if block_hash(c, pos, data[i * bs:(i + 1) * bs]) != h:
                     ok = False
                     break
@@ -72,7 +72,7 @@ def pick_version(c, f, cands):
     return None
 
 
-def check(lab, c=None, z=None, check_rep_hash=True):
+def check(lab, c=None, z=None):
     """returns list of violation dicts (empty = C06 holds on the current on-disk state)"""
     if c is None:
         c = lab.content()
@@ -111,14 +111,12 @@ def check(lab, c=None, z=None, check_rep_hash=True):
             ver[k] = (pick_version(c, f, cands), len(cands))
         return ver[k]
 
-    # --- hash sanity for BLK (and REP) blocks
+    # --- hash sanity for BLK blocks (this is what identifies 'the synced contents')
     for d in c.disks.values():
         for f in d.files:
             if not f.blocks:
                 continue
-            if not any(st in (C.BLK, C.REP) for st, _, _ in f.blocks):
-                continue
-            if not check_rep_hash and not any(st == C.BLK for st, _, _ in f.blocks):
+            if not any(st == C.BLK for st, _, _ in f.blocks):
                 continue
             data, ncand = version(d.name, f)
             if data is None:
